@@ -55,9 +55,13 @@ type psiUnitModel struct {
 // buildPSIUnit packetises sections on pid. strict applies the ISO 13818-1 rule that a packet in which a section starts
 // carries payload_unit_start_indicator, i.e. every section of a unit (PUSI to next PUSI) starts in its first packet;
 // all callers set it (a first packet holding nothing but the pointer_field is not a conformant stream).
-func buildPSIUnit(t *rapid.T, pid uint16, cc *uint8, secs []*ref.Section, strict bool, label string) *psiUnitModel {
+func buildPSIUnit(t *rapid.T, pid uint16, cc *uint8, secs []*ref.Section, strict bool, label string, foreign ...[]byte) *psiUnitModel {
 	u := &psiUnitModel{pid: pid, sections: secs}
-	for _, s := range secs {
+	for i, s := range secs {
+		if i == len(secs)-1 {
+			// sections of other table types sharing the PID (TDT before TOT, BAT before SDT, ...) come before the last one
+			u.encoded = append(u.encoded, foreign...)
+		}
 		u.encoded = append(u.encoded, s.Encode())
 	}
 	headLen := 0 // bytes before the last section
@@ -126,6 +130,19 @@ func TestC13Demux(t *testing.T) {
 	rapid.Check(t, func(t *rapid.T) {
 		kind := gen.Uniform(t, 6, "kind")
 		secs := sectionsForUnit(t, kind, "u")
+		var foreign [][]byte
+		if kind >= gen.KindSDT && gen.Chance(t, 35, "foreign") {
+			used := 0
+			for _, sc := range secs[:len(secs)-1] {
+				used += len(sc.Encode())
+			}
+			for n := 1 + gen.Uniform(t, 2, "nforeign"); n > 0 && used < 120; n-- {
+				f := ref.ForeignSection(ref.ForeignTableIDs[gen.Uniform(t, len(ref.ForeignTableIDs), "ftid")], gen.Bool(t, "fsyn"), gen.Bool(t, "fpriv"), gen.Bytes(t, rapid.IntRange(0, 30).Draw(t, "flen"), "fbody"))
+				foreign = append(foreign, f)
+				used += len(f)
+			}
+			rec.Class("unit_with_undecoded_table_types(TDT/BAT/ST/...)")
+		}
 		var pkts []*ref.TSPacket
 		var want []*astits.DemuxerData
 		pid := gen.StandardPID(kind)
@@ -137,7 +154,7 @@ func TestC13Demux(t *testing.T) {
 			pkts = append(pkts, pu.packets...)
 			want = append(want, pu.expectItems()...)
 		}
-		u := buildPSIUnit(t, pid, &cc, secs, true, "unit")
+		u := buildPSIUnit(t, pid, &cc, secs, true, "unit", foreign...)
 		pkts = append(pkts, u.packets...)
 		want = append(want, u.expectItems()...)
 		// a later unit on another PID: data delivered earlier must still be intact once the demuxer has moved on
